@@ -23,6 +23,12 @@ def run(chk, tier, scale=1.0):
     opts = {"weights": {"timeout": 9, "hurry": 5, "reply": 26, "password": 18, "stray": 8, "unlinked": 5, "dupdata": 5}, "reply_kinds": ["OK", "OKacct", "OKacct", "AGAIN", "MORE", "NO", "junk", "OKspace"]}
     jobs = pcommon.hist_jobs(b, n, chk.seed, PROPS, opts=opts, tag="c03", want_class=False)
     prun.fold(chk, "C03", vcommon.pmap(prun.hist_worker, jobs, chunksize=4), crash_is_violation=True)
+    # directed scripts: ids that agree in their low bits live at the same time; a reload that removes a service which still owes an
+    # answer or the continuation of a MORE dialogue
+    dj = pcommon.collision_jobs(b, chk.seed, PROPS, int((120 if tier == "quick" else 3000) * scale)) + \
+         pcommon.reload_jobs(b, chk.seed, PROPS, int((160 if tier == "quick" else 4000) * scale))
+    for rs in vcommon.pmap(pcommon.script_worker, dj):
+        prun.fold(chk, "C03", rs, crash_is_violation=True)
     chk.rule = ("the C02 workload (all 120 arrival orders x service tables x reply policies x timeout / hurry-up positions x passwords) plus random multi-client "
                 "histories weighted towards late, duplicate and unexpected replies, repeated passwords, unlinked notices and timeouts; after EVERY input line the monitor "
                 "asks of every open client: all required data (or H), no query unanswered (or timeout expired and no query sent since), no +! without account - "
